@@ -49,6 +49,9 @@ struct Scenario {
     htlcs: Vec<HtlcSpec>,
     our_output: bool,
     no_info: bool, // malformed: the signer has no commitment info for the broadcast number
+    // lockstep: the signer holds a holder commitment and a counterparty commitment with the
+    // same number and the same HTLC set; one of the two confirms
+    lockstep: bool,
 }
 
 impl Scenario {
@@ -73,7 +76,7 @@ impl Scenario {
                 .collect::<Vec<_>>()
                 .join(""),
             if self.our_output { "our" } else { "noour" },
-            if self.no_info { "-noinfo" } else { "" }
+            if self.no_info { "-noinfo" } else if self.lockstep { "-lockstep" } else { "" }
         )
     }
 }
@@ -185,6 +188,35 @@ fn make_world(sc: &Scenario) -> World {
         .expect("holder commitment state");
         t
     };
+    if sc.lockstep && !sc.no_info {
+        // the other side's commitment with the same number and the mirrored HTLC set
+        node.with_channel(&chan_ctx.channel_id, |chan| {
+            if sc.closer_cp {
+                chan.enforcement_state.set_next_holder_commit_num_for_testing(commit_num + 1);
+                chan.enforcement_state.current_holder_commit_info = Some(CommitmentInfo2::new(
+                    false,
+                    TO_CP,
+                    to_holder,
+                    received.clone(), // what the counterparty receives, we offer
+                    offered.clone(),
+                    FEERATE,
+                ));
+            } else {
+                let point = make_test_pubkey(12);
+                chan.enforcement_state.set_next_counterparty_commit_num_for_testing(commit_num + 1, point);
+                chan.enforcement_state.current_counterparty_commit_info = Some(CommitmentInfo2::new(
+                    true,
+                    to_holder,
+                    TO_CP,
+                    received.clone(), // what we receive, the counterparty offers
+                    offered.clone(),
+                    FEERATE,
+                ));
+            }
+            Ok(())
+        })
+        .expect("lockstep state");
+    }
     let h0 = node.get_tracker().height();
     World { node_ctx, chan_ctx, key, funding: tx, commitment, h0, stack: vec![] }
 }
@@ -220,6 +252,9 @@ struct Universe {
     cfg_coq: String,
     finputs: Vec<OutPoint>,
     n_spendable: usize,
+    // what the close must record, from how the commitment was built
+    c_our: Option<u32>,
+    c_spendable: Vec<u32>,
 }
 
 const F: u64 = 10;
@@ -347,7 +382,15 @@ fn make_universe(sc: &Scenario, w: &World) -> Universe {
     if let Some(v) = unspendable.first() {
         put(NS, "unspendable-htlc-spend", tx_spending(&[OutPoint { txid: ctxid, vout: *v }], 1, 50), nc.clone(), &mut ids);
     }
-    let mut u = Universe { txs, ids, cfg_coq: String::new(), finputs: fi.clone(), n_spendable: spendable.len() };
+    let mut u = Universe {
+        txs,
+        ids,
+        cfg_coq: String::new(),
+        finputs: fi.clone(),
+        n_spendable: spendable.len(),
+        c_our: our,
+        c_spendable: spendable.clone(),
+    };
     let fin: Vec<String> = fi.iter().map(|o| u.coq_op(o)).collect();
     u.cfg_coq = format!("mkcfg {} {} {}", F, w.key.vout, coq_list(&fin));
     u
@@ -801,6 +844,25 @@ fn run_case(sc: &Scenario, u: &Universe, steps: &[Step], direct: bool, forgot: b
         }
         let o = d.obs(u);
         coq_obs.push(o.coq.clone());
+        // the recorded close must be the one of the confirmed transaction: our output and the
+        // claimable HTLC outputs as the harness built them
+        if admissible && violation.is_none() {
+            let clo = &o.view["state"]["closing_outpoints"];
+            if !clo.is_null() {
+                let got_h: Vec<u64> = clo["htlc_outputs"].as_array().unwrap().iter().map(|x| x.as_u64().unwrap()).collect();
+                let got_o = if clo["our_output"].is_null() { None } else { clo["our_output"][0].as_u64() };
+                let exp_h: Vec<u64> = u.c_spendable.iter().map(|x| *x as u64).collect();
+                let exp_o = u.c_our.map(|x| x as u64);
+                if got_h != exp_h || got_o != exp_o {
+                    violation = Some(json!({
+                        "what": "the unilateral close recorded by the monitor is not the one of the confirmed commitment transaction (our output / claimable HTLC outputs)",
+                        "step": jsteps.len() - 1,
+                        "recorded": {"our_output": got_o, "htlc_outputs": got_h},
+                        "confirmed_transaction": {"our_output": exp_o, "claimable_htlc_outputs": exp_h},
+                    }));
+                }
+            }
+        }
         // the two views of one channel must agree: the ChainState handed to the validators
         // against the monitor's own getters
         if admissible && violation.is_none() {
@@ -870,12 +932,17 @@ fn scenarios() -> Vec<Scenario> {
     let h = |o: bool, a: u64, p: bool| HtlcSpec { offered: o, amount_sat: a, preimage_known: p };
     let mut v = vec![];
     for closer_cp in [false, true] {
-        v.push(Scenario { closer_cp, htlcs: vec![], our_output: true, no_info: false });
-        v.push(Scenario { closer_cp, htlcs: vec![h(true, 10_000, closer_cp)], our_output: true, no_info: false });
-        v.push(Scenario { closer_cp, htlcs: vec![h(true, 10_000, true), h(false, 12_000, true)], our_output: true, no_info: false });
-        v.push(Scenario { closer_cp, htlcs: vec![h(true, 10_000, false), h(false, 12_000, false)], our_output: true, no_info: false });
-        v.push(Scenario { closer_cp, htlcs: vec![h(!closer_cp, 11_000, false)], our_output: false, no_info: false });
-        v.push(Scenario { closer_cp, htlcs: vec![], our_output: false, no_info: false });
+        v.push(Scenario { closer_cp, htlcs: vec![], our_output: true, no_info: false, lockstep: false });
+        v.push(Scenario { closer_cp, htlcs: vec![h(true, 10_000, closer_cp)], our_output: true, no_info: false, lockstep: false });
+        v.push(Scenario { closer_cp, htlcs: vec![h(true, 10_000, true), h(false, 12_000, true)], our_output: true, no_info: false, lockstep: false });
+        v.push(Scenario { closer_cp, htlcs: vec![h(true, 10_000, false), h(false, 12_000, false)], our_output: true, no_info: false, lockstep: false });
+        v.push(Scenario { closer_cp, htlcs: vec![h(!closer_cp, 11_000, false)], our_output: false, no_info: false, lockstep: false });
+        v.push(Scenario { closer_cp, htlcs: vec![], our_output: false, no_info: false, lockstep: false });
+        // both sides' commitment N held, one of them confirms
+        v.push(Scenario { closer_cp, htlcs: vec![h(true, 10_000, true), h(false, 12_000, true)], our_output: true, no_info: false, lockstep: true });
+        v.push(Scenario { closer_cp, htlcs: vec![h(true, 10_000, false), h(false, 12_000, false)], our_output: true, no_info: false, lockstep: true });
+        v.push(Scenario { closer_cp, htlcs: vec![h(!closer_cp, 11_000, closer_cp)], our_output: true, no_info: false, lockstep: true });
+        v.push(Scenario { closer_cp, htlcs: vec![], our_output: true, no_info: false, lockstep: true });
     }
     v
 }
@@ -1008,6 +1075,9 @@ fn emit_case(c: &CaseOut, stats: &mut BTreeMap<String, u64>) {
         *stats.entry("monitor_violations".into()).or_default() += 1;
     }
     *stats.entry(format!("driver_{}", c.json["driver"].as_str().unwrap())).or_default() += 1;
+    if c.json["scenario"].as_str().unwrap().ends_with("-lockstep") {
+        *stats.entry("lockstep_cases".into()).or_default() += 1;
+    }
     *stats.entry(format!("steps")).or_default() += c.json["steps"].as_array().unwrap().len() as u64;
     *stats.entry(format!("removes")).or_default() += c.json["removes"].as_u64().unwrap();
     *stats.entry(format!("reorg_depth_{}", c.json["max_reorg_depth"])).or_default() += 1;
@@ -1119,6 +1189,7 @@ fn random(args: &Args, malformed: bool) {
         let mut sc = scs[si].clone();
         let key = if malformed && rng.chance(1, 6) {
             sc.no_info = true;
+            sc.lockstep = false;
             si + 100
         } else {
             si
